@@ -106,8 +106,7 @@ def expirePX (s : MState) (now : Int) (key : Bytes) (ms : Int) : R :=
   if ms = 0 then del s now [key] else
   let (s, ok) := writeKey s now key none
   if !ok then (s, .int 0) else
-  let base := if expOf s key = 0 then now else expOf s key
-  (applyExp s key (wrap64 (base + ms)), .int 1)
+  (applyExp s key (wrap64 (now + ms)), .int 1)
 
 def expireNX (s : MState) (now : Int) (key : Bytes) (seconds : Int) : R :=
   let (s, ok) := writeKey s now key none
@@ -119,23 +118,22 @@ def expireXX (s : MState) (now : Int) (key : Bytes) (seconds : Int) : R :=
   let (s, ok) := writeKey s now key none
   if !ok then (s, .int 0) else
   if expOf s key = 0 then (s, .int 0) else
-  (applyExp s key (wrap64 (expOf s key + wrap64 (seconds * 1000))), .int 1)
+  (applyExp s key (wrap64 (now + wrap64 (seconds * 1000))), .int 1)
 
+/-- LT / GT compare against the stored deadline with "no deadline" = 0, i.e. the *smallest* value
+    (Redis treats it as infinite; the repository's tests pin this convention: known finding) -/
 def expireLT (s : MState) (now : Int) (key : Bytes) (seconds : Int) : R :=
   let (s, ok) := writeKey s now key none
   if !ok then (s, .int 0) else
   if expOf s key = 0 then (s, .int 0) else
-  let ms := wrap64 (seconds * 1000)
-  if expOf s key > wrap64 (now - ms) then (applyExp s key (wrap64 (expOf s key - ms)), .int 1)
-  else (s, .int 1)
+  let deadline := wrap64 (now + wrap64 (seconds * 1000))
+  if deadline < expOf s key then (applyExp s key deadline, .int 1) else (s, .int 0)
 
 def expireGT (s : MState) (now : Int) (key : Bytes) (seconds : Int) : R :=
   let (s, ok) := writeKey s now key none
   if !ok then (s, .int 0) else
-  let s := if expOf s key = 0 then setExp s key now else s
-  let ms := wrap64 (seconds * 1000)
-  if expOf s key < wrap64 (now + ms) then (applyExp s key (wrap64 (expOf s key + ms)), .int 1)
-  else (s, .int 0)
+  let deadline := wrap64 (now + wrap64 (seconds * 1000))
+  if expOf s key < deadline then (applyExp s key deadline, .int 1) else (s, .int 0)
 
 def expireAt (s : MState) (now : Int) (key : Bytes) (ts : Int) : R :=
   let (s, ok) := writeKey s now key none
@@ -146,20 +144,21 @@ def expireAtNX (s : MState) (now : Int) (key : Bytes) (ts : Int) : R :=
   if !ok then (s, .int 0) else
   if expOf s key ≠ 0 then (s, .int 0) else (applyExp s key ts, .int 1)
 
-/-- ExpireAtXX has the same (inverted) guard as NX in the code -/
-def expireAtXX := expireAtNX
+def expireAtXX (s : MState) (now : Int) (key : Bytes) (ts : Int) : R :=
+  let (s, ok) := writeKey s now key none
+  if !ok then (s, .int 0) else
+  if expOf s key = 0 then (s, .int 0) else (applyExp s key ts, .int 1)
 
 def expireAtLT (s : MState) (now : Int) (key : Bytes) (ts : Int) : R :=
   let (s, ok) := writeKey s now key none
   if !ok then (s, .int 0) else
-  if expOf s key ≠ 0 then (s, .int 0) else
-  if expOf s key > ts then (applyExp s key ts, .int 1) else (s, .int 1)
+  if expOf s key = 0 then (s, .int 0) else
+  if ts < expOf s key then (applyExp s key ts, .int 1) else (s, .int 0)
 
 def expireAtGT (s : MState) (now : Int) (key : Bytes) (ts : Int) : R :=
   let (s, ok) := writeKey s now key none
   if !ok then (s, .int 0) else
-  let s := if expOf s key = 0 then setExp s key ts else s
-  if expOf s key < ts then (applyExp s key ts, .int 1) else (s, .int 1)
+  if expOf s key < ts then (applyExp s key ts, .int 1) else (s, .int 0)
 
 def keys (s : MState) (now : Int) (pat : Bytes) : R :=
   (s, .slist ((s.index.filter fun (k, m) => Glob.matched pat k && !m.expired now).map (·.1)))
@@ -214,8 +213,10 @@ def rename (s : MState) (now : Int) (key dst : Bytes) : R :=
     let s := match m.value with
       | some v => modMeta s dst fun d => ({ d with oid := m.oid }.setValue v)
       | none => s
-    -- signalModifiedKey(key, meta) on the unlinked source; signalModifiedKey(key, dstMeta)
-    let s := { modMeta s dst Meta.markModified with signalled := key :: key :: s.signalled }
+    -- the deadline moves with the value
+    let s := setExp s dst m.exp
+    -- signalModifiedKey(key, meta) on the unlinked source; signalModifiedKey(dstKey, dstMeta)
+    let s := { modMeta s dst Meta.markModified with signalled := dst :: key :: s.signalled }
     (emit s { typ := 32, key := key, args := [Bytes.toHex dst] }, .err false)
 
 def renameNX (s : MState) (now : Int) (key dst : Bytes) : R :=
@@ -231,7 +232,7 @@ def renameNX (s : MState) (now : Int) (key dst : Bytes) : R :=
     let d : Meta := { exp := m.exp, value := none, kid := kid, oid := m.oid }
     let d := match m.value with | some v => d.setValue v | none => d
     let s := putMeta s dst d.markModified
-    let s := { s with signalled := key :: key :: s.signalled }
+    let s := { s with signalled := dst :: key :: s.signalled }
     (emit s { typ := 32, key := key, args := [Bytes.toHex dst] }, .err false)
 
 def type_ (s : MState) (now : Int) (key : Bytes) : R :=
@@ -302,6 +303,7 @@ def getSet (s : MState) (now : Int) (key value : Bytes) : R :=
   | none => (s, .panic)
   | some old =>
     let s := setVal s key (.str value)
+    let s := setExp s key 0
     (emit (signal s key) (opSet key value false), .bytes old)
 
 def setEX (s : MState) (now : Int) (key value : Bytes) (seconds : Int) : R :=
